@@ -38,6 +38,9 @@ type C12Expect struct {
 	NS string `json:"ns"`           // namespace of the placing module (owner, for a submodule)
 	IM string `json:"im"`           // its name
 	By string `json:"by,omitempty"` // the (sub)module whose text placed the node (information only)
+	// Cfg is the argument of the config statement written on the node ("" when there is none): the
+	// read-only oracle goes by the statements as written, not by what the library stored.
+	Cfg string `json:"cfg,omitempty"`
 	// Lib marks nodes the library inserts (implied case of a shorthand choice member, rpc input /
 	// output that is not written): the property does not speak about their namespace.
 	Lib bool `json:"lib,omitempty"`
@@ -61,6 +64,7 @@ type xnode struct {
 	parent *xnode
 	lib    bool
 	inOps  bool
+	cfg    string
 }
 
 func (x *xnode) child(name string) *xnode {
@@ -161,7 +165,9 @@ func GenerateC12(r *rand.Rand, opt C12Opts) *C12Set {
 			}
 			if len(m.Includes) == 2 && g.chance(0.4) {
 				m.Includes[0].Includes = append(m.Includes[0].Includes, m.Includes[1])
+				g.feat["submodule_including_submodule"]++
 			}
+			g.feat["submodules"] += len(m.Includes)
 		}
 	}
 	all := append(append([]*Module{}, mods...), subs...)
@@ -427,6 +433,20 @@ func (g *c12gen) usable(m *Module, local []*Node) [][2]interface{} {
 			out[len(out)-1][0] = m.Prefix + ":" + gr.Arg
 		}
 	}
+	// a submodule also sees the groupings of the module it belongs to and of that module's other
+	// submodules
+	if m.Sub {
+		for _, gr := range m.Owner.Groupings {
+			out = append(out, [2]interface{}{gr.Arg, gr})
+		}
+		for _, s := range m.Owner.Includes {
+			if s != m {
+				for _, gr := range s.Groupings {
+					out = append(out, [2]interface{}{gr.Arg, gr})
+				}
+			}
+		}
+	}
 	// FindGrouping searches the includes of the (sub)module the reference is written in
 	for _, s := range m.Includes {
 		for _, gr := range s.Groupings {
@@ -677,6 +697,11 @@ func (g *c12gen) expandD(x *xnode, n *Node, by *Module, depth int) {
 				continue
 			}
 			cx := x.add(name, c.Kw, by)
+			for _, k := range c.Kids {
+				if k.Kw == "config" {
+					cx.cfg = k.Arg
+				}
+			}
 			g.expandD(cx, c, by, depth+1)
 		case c.Kw == "uses":
 			if c.Uses == nil {
@@ -856,14 +881,15 @@ func (g *c12gen) treeOwner(x *xnode) *Module {
 func (g *c12gen) emit(tab map[string]C12Expect, tree, parentPath string, x *xnode, parent *xnode) {
 	path := parentPath + "/" + x.name
 	if parent != nil && parent.kw == "choice" && x.kw != "case" {
-		tab[tree+" "+path] = C12Expect{Lib: true}
+		// the implied case stands for the member: it starts out with the member's config statement
+		tab[tree+" "+path] = C12Expect{Lib: true, Cfg: x.cfg}
 		path += "/" + x.name
 	}
 	if x.lib || x.by == nil {
 		tab[tree+" "+path] = C12Expect{Lib: true}
 	} else {
 		o := ownerOf(x.by)
-		tab[tree+" "+path] = C12Expect{NS: o.Namespace, IM: o.Name, By: x.by.Name}
+		tab[tree+" "+path] = C12Expect{NS: o.Namespace, IM: o.Name, By: x.by.Name, Cfg: x.cfg}
 	}
 	for _, c := range x.kids {
 		g.emit(tab, tree, path, c, x)
